@@ -773,7 +773,7 @@ class MatrixProviderLinked(MatrixProvider):
             The aligned matrix container.
         """
         if len(matrices) == 1:
-            return matrices[0]
+            return matrices[0].create_scaled_matrix(scales[0])
         masks = []
         full_clp_labels: list[str] = []
         sizes = []
